@@ -147,7 +147,7 @@ DESCR["C11"] = {
 ATT = "verif_attrs::"
 PRECIS = "strings::opaque_string_prepapre/enforce -> precis_ascii (identity on printable ASCII, Err on empty/control: the documented OpaqueString behaviour on ASCII)"
 QSPLAIN = "QuotedStringParser::validate -> qs_plain (accepts exactly printable ASCII without SP, '\"' and '\\\\': qdtext; harness inputs are drawn from that alphabet)"
-_ATTR_ALL = ['attr_additional_address_family', 'attr_address_error_code', 'attr_alternate_server_v4', 'attr_alternate_server_v6', 'attr_change_request', 'attr_channel_number', 'attr_data_l0', 'attr_data_l1', 'attr_data_l2', 'attr_data_l3', 'attr_data_l5', 'attr_empty_kinds', 'attr_error_code_l0', 'attr_error_code_l1', 'attr_error_code_l3', 'attr_error_code_l6', 'attr_even_port', 'attr_ice_controlled', 'attr_ice_controlling', 'attr_icmp', 'attr_lifetime', 'attr_mapped_address_v4', 'attr_mapped_address_v6', 'attr_mobility_ticket_l1', 'attr_mobility_ticket_l4', 'attr_nonce_l1', 'attr_nonce_l2', 'attr_nonce_l4', 'attr_other_address_v4', 'attr_other_address_v6', 'attr_padding_l2', 'attr_padding_l5', 'attr_password_algorithm_p0', 'attr_password_algorithm_p1', 'attr_password_algorithm_p3', 'attr_password_algorithm_p4', 'attr_password_algorithms_n0', 'attr_password_algorithms_n1_p0', 'attr_password_algorithms_n1_p3', 'attr_password_algorithms_n2_p0_p0', 'attr_password_algorithms_n2_p1_p2', 'attr_password_algorithms_n2_p2_p0', 'attr_password_algorithms_n2_p3_p3', 'attr_priority', 'attr_realm_l1', 'attr_realm_l3', 'attr_realm_l5', 'attr_registry_codes_distinct', 'attr_requested_address_family', 'attr_requested_transport', 'attr_reservation_token', 'attr_response_origin_v4', 'attr_response_origin_v6', 'attr_response_port', 'attr_software_l0', 'attr_software_l1', 'attr_software_l3', 'attr_software_l6', 'attr_software_limit_509', 'attr_software_limit_510', 'attr_unknown_attributes', 'attr_user_hash', 'attr_user_name_l1', 'attr_user_name_l2', 'attr_user_name_l4', 'attr_xor_mapped_address_v4', 'attr_xor_mapped_address_v6', 'attr_xor_peer_address_v4', 'attr_xor_peer_address_v6', 'attr_xor_relayed_address_v4', 'attr_xor_relayed_address_v6']
+_ATTR_ALL = ['attr_additional_address_family', 'attr_address_error_code', 'attr_alternate_server_v4', 'attr_alternate_server_v6', 'attr_change_request', 'attr_channel_number', 'attr_data_l0', 'attr_data_l1', 'attr_data_l2', 'attr_data_l3', 'attr_data_l5', 'attr_empty_kinds', 'attr_error_code_l0', 'attr_error_code_l1', 'attr_error_code_l3', 'attr_error_code_l6', 'attr_even_port', 'attr_ice_controlled', 'attr_ice_controlling', 'attr_icmp', 'attr_lifetime', 'attr_mapped_address_v4', 'attr_mapped_address_v6', 'attr_mobility_ticket_l1', 'attr_mobility_ticket_l4', 'attr_nonce_l1', 'attr_nonce_l2', 'attr_nonce_l4', 'attr_other_address_v4', 'attr_other_address_v6', 'attr_padding_l2', 'attr_padding_l5', 'attr_password_algorithm_p0', 'attr_password_algorithm_p1', 'attr_password_algorithm_p3', 'attr_password_algorithm_p4', 'attr_password_algorithms_n0', 'attr_password_algorithms_n1_p0', 'attr_password_algorithms_n1_p3', 'attr_password_algorithms_n2_p0_p0', 'attr_password_algorithms_n2_p1_p2', 'attr_password_algorithms_n2_p2_p0', 'attr_password_algorithms_n2_p3_p3', 'attr_password_algorithms_n3_p1_p2_p0', 'attr_password_algorithms_n3_p0_p0_p0', 'attr_password_algorithms_n3_p3_p1_p2', 'attr_priority', 'attr_realm_l1', 'attr_realm_l3', 'attr_realm_l5', 'attr_registry_codes_distinct', 'attr_requested_address_family', 'attr_requested_transport', 'attr_reservation_token', 'attr_response_origin_v4', 'attr_response_origin_v6', 'attr_response_port', 'attr_software_l0', 'attr_software_l1', 'attr_software_l3', 'attr_software_l6', 'attr_software_limit_509', 'attr_software_limit_510', 'attr_unknown_attributes', 'attr_user_hash', 'attr_user_name_l1', 'attr_user_name_l2', 'attr_user_name_l4', 'attr_xor_mapped_address_v4', 'attr_xor_mapped_address_v6', 'attr_xor_peer_address_v4', 'attr_xor_peer_address_v6', 'attr_xor_relayed_address_v4', 'attr_xor_relayed_address_v6']
 _STRK = ("attr_nonce", "attr_realm", "attr_user_name", "attr_software", "attr_padding")
 
 
@@ -279,3 +279,60 @@ DESCR["C17"] = {
     "level": "Frame condition on the on_buffer_recv step: whenever the real client returns Err (undecodable, request, unknown/finished id, fingerprint absent/wrong/failed, mechanism says Discarded) there are no events and the transaction table, per-transaction send instants, queue deadlines and RTT estimator are field-by-field unchanged.",
     "note": "As C05. Credential-state frame conditions are outside this check (mechanisms are modelled here).",
 }
+
+RAW = "raw::verif_raw::"
+HMACSTUB = "<MessageIntegrity|MessageIntegritySha256 as HmacSha>::hmac_sha -> recording stub (copies key and input to ghost buffers, returns the MAC chosen by the harness): HMAC/SHA primitives and their strength are outside the claim"
+CRCSTUB = "FINGERPRINT value compared with the crc crate's CRC of the expected input (the crate's CRC vs a bitwise CRC-32/ISO-HDLC reference is decided by the c10_crc_* queries)"
+_C04_RAW = [H("stunrs", RAW + "c04_input_text_n%d" % n, tier=t, timeout=1500, mem_gb=10, covers=1, stubs=[NOFMT],
+              bounds="%d-byte buffer: valid header, symbolic length field, all attribute bytes symbolic, attribute type symbolic (all 65536)" % n,
+              funcs=["raw::get_input_text", "RawMessage::decode", "RawAttributesIter::next", "RawAttribute::decode"],
+              sample="buf = hdr(len=16) | 0x8022 len 1 'x' pad3 | 0x0008 len 4 .... -> input = buf[..28] with length := 16")
+            for (n, t) in ((28, "quick"), (36, "quick"), (44, "thorough"))]
+_C04_TAIL = [H("stunrs", MSG + n, tier=t, timeout=1800, mem_gb=12, covers=None, stubs=[NOFMT, TID, PRECIS, HMACSTUB, CRCSTUB],
+               bounds="message = UNKNOWN-ATTRIBUTES(1 symbolic code) + tail %s; method/class/transaction id symbolic; MAC/CRC values symbolic" % n.split("tail_")[1],
+               funcs=["MessageEncoder::encode", "MessageIntegrity::post_encode", "MessageIntegritySha256::post_encode", "Fingerprint::post_encode", "raw::get_input_text"])
+             for (n, t) in (("c04_tail_mi", "quick"), ("c04_tail_sha", "quick"), ("c04_tail_mi_sha", "thorough"), ("c04_tail_mi_fp", "quick"), ("c04_tail_sha_fp", "thorough"), ("c04_tail_mi_sha_fp", "thorough"))]
+prop("C04", _C04_RAW + _C04_TAIL,
+     outside="HMAC-SHA1 / HMAC-SHA256 / MD5 / SHA-256 primitives, their argument order inside the primitive crates, and the long-term key derivation string (assumed; covered by the RFC 5769/8489 vectors of the existing suite); 'no other key or message yields this MAC' is a cryptographic assumption; buffers > 44 bytes for the walker, tails beyond one ordinary attribute",
+     assumptions=["HMAC is a secure MAC: two different inputs or keys do not collide"])
+DESCR["C04"] = {
+    "level": "Bounded model checking of which bytes are authenticated: get_input_text against an independent TLV walker for every buffer of the instantiated sizes and every attribute type; the real encoder with the HMAC primitives replaced by recording stubs — key, input (message up to the attribute, length field covering it), placement of the MAC, and invariance of the input under appended SHA256/FINGERPRINT attributes.",
+    "note": "Decides MAC-input selection, not cryptographic strength (assumed). Trusted: Kani/CBMC, the recording stubs, precis_ascii for the 2-byte ASCII password.",
+}
+_C10_CRC = [H("stunrs", MSG + "c10_crc_n%d" % n, tier=t, timeout=900, mem_gb=6, covers=None, bounds="all inputs of %d bytes" % n,
+              funcs=["crc::Crc::<u32>::new(&CRC_32_ISO_HDLC)", "crc::Crc::<u32>::checksum"]) for (n, t) in ((0, "quick"), (1, "quick"), (3, "quick"), (4, "quick"), (8, "thorough"))]
+_C10_TAIL = [H("stunrs", MSG + n, tier=t, timeout=1800, mem_gb=12, covers=None, stubs=[NOFMT, TID, PRECIS, HMACSTUB, CRCSTUB],
+               bounds="message = UNKNOWN-ATTRIBUTES + tail %s, contents symbolic" % n.split("tail_")[1], funcs=["MessageEncoder::encode", "Fingerprint::encode/post_encode"])
+             for (n, t) in (("c10_tail_fp", "quick"), ("c04_tail_mi_fp", "thorough"))]
+
+
+# ---- additions: attribute-level buffer discipline (C14), MAC/CRC comparison (C04/C10), trimming (C19)
+_C14_ATTR = [H("stunrs", ATT + n, timeout=900, mem_gb=6, covers=2, stubs=[NOFMT],
+               bounds="attribute encoder(s) %s into a slice of every length 0..needed+2 (symbolic), symbolic pre-fill" % n[9:-8],
+               funcs=["<kind as EncodeAttributeValue>::encode", "common::check_buffer_boundaries"])
+             for n in ("c14_attr_error_code_any_len", "c14_attr_address_error_code_any_len", "c14_attr_password_algorithms_any_len", "c14_attr_fixed_kinds_any_len", "c14_attr_bytes_kinds_any_len")]
+PROPS["C14"] = PROPS["C14"] + _C14_ATTR
+_C04_VAL = [H("stunrs", ATT + n, timeout=900, mem_gb=6, covers=1, stubs=[NOFMT, PRECIS, HMACSTUB],
+              bounds="stored MAC and computed MAC both fully symbolic", funcs=["MessageIntegrity::validate", "MessageIntegritySha256::validate"])
+            for n in ("c04_validate_mi_compares_all_bytes", "c04_validate_sha256_compares_all_bytes")]
+PROPS["C04"] = PROPS["C04"] + _C04_VAL
+_C10_VAL = [H("stunrs", ATT + "c10_fingerprint_validate", timeout=900, mem_gb=6, covers=None, stubs=[NOFMT], bounds="stored value and 4-byte input symbolic", funcs=["Fingerprint::validate", "Fingerprint::from<[u8;4]>"])]
+STR = "strings::verif_strings::"
+_C19_TRIM = [H("stunrs", STR + "c19_quoted_trim_%d_%d" % (a, b), tier=t, timeout=900, mem_gb=8, covers=1, stubs=[NOFMT, QS],
+               bounds="text = %d leading + (lead,cont) pair + 'm' + (lead,cont) pair + %d trailing characters; leading/trailing from the removable set and printable ASCII; pairs = U+00C0..DF, U+0080..BF" % (a, b),
+               funcs=["strings::formatted_quoted_string_from", "strings::skip_starting_characteres", "strings::skip_trailing_characteres", "QuotedString::new"], playback=True)
+             for (a, b, t) in ((0, 0, "quick"), (1, 1, "quick"), (2, 0, "thorough"), (0, 2, "thorough"))]
+PROPS["C19"] = PROPS["C19"] + _C19_TRIM
+
+REGSMALL = "registry::get_handler -> 4-kind restriction (MI, SHA256, FINGERPRINT, PRIORITY) of the registry generated from the working tree; agreement on the codes used asserted by c18_registry_small_agrees"
+_C18 = [H("stunrs", CTX + "c18_registry_small_agrees", timeout=300, mem_gb=3, covers=None, bounds="7 type codes", funcs=["registry (generated)"])] + [
+    H("stunrs", CTX + n, tier=t, timeout=2400, mem_gb=14, covers=2, stubs=[NOFMT, TID, REGSMALL],
+      bounds="68-byte message, fixed slot layout (8 | 24 | 8 | 8), slot types symbolic over {FINGERPRINT, PRIORITY, 2 unknown codes}, block type over {MESSAGE-INTEGRITY, unknown}, all value bytes / method / class / transaction id symbolic; decoder options concrete: %s" % n[11:],
+      funcs=["MessageDecoder::decode", "context::ignore_attribute", "Unknown::new", "RawMessage::decode", "RawAttributesIter::next"])
+    for (n, t) in (("c18_decode_noctx", "quick"), ("c18_decode_default_ctx", "quick"), ("c18_decode_not_ignore", "quick"), ("c18_decode_unknown_data", "thorough"), ("c18_decode_not_ignore_unknown_data", "thorough"))]
+prop("C18", _C18, outside="validation-on vs validation-off (needs the MAC/CRC primitives on symbolic buffers; the filter/validation interaction is covered only by the C09 kernel and the C04/C10 input-selection queries); layouts other than the fixed 4-attribute one; attribute kinds other than the 4 registered + unknown")
+DESCR["C18"] = {
+    "level": "Bounded model checking of the real MessageDecoder::decode under concrete option sets on a fixed-layout 68-byte message with symbolic attribute types and contents: no-context == default-context, not_ignore returns every wire attribute in order, the default result is the subsequence admitted by the RFC rule, with_unknown_data adds exactly the raw value bytes.",
+    "note": "The validation-on/off relation is not decided here (listed under outside). Trusted: Kani/CBMC, the 4-kind registry restriction.",
+}
+PROPS["C09"] = PROPS["C09"] + [PROPS["C18"][1], PROPS["C18"][2]]
